@@ -19,7 +19,8 @@ from .common import variants_under
 LEVEL_TEXT = ('Static analysis (sibling-table agreement of nonce-derivation call sites, order-preservation of the iterators that carry '
               'per-component data, control dependence of the result pushes). Decides that prover and recoverer derive the same nonces with the '
               'same labels and index conventions and that component k of the blinding vector stays at position k. Does not decide that the recovered '
-              'scalar equals the mask (an algebraic identity across a data-dependent number of rounds).')
+              'scalar equals the mask (an algebraic identity across a data-dependent number of rounds).'
+              ' Also decides that statement, opening and mask constructors store seed, value and blinding factors unadjusted.')
 ASSUMPTIONS = ['enumerate() counts from 0 in iteration order; zip pairs positionally']
 RULE_TEXT = 'one obligation per table row and structural fact; non-trivial = decided from call-site argument terms'
 
